@@ -29,10 +29,8 @@ var arch386KeyRe = regexp.MustCompile(`(?m)^  key=(\S+) cases=(\d+): (.*)$`)
 
 // arch386Pass re-runs the check itself in the GOARCH=386 build.
 func arch386Pass(c *core.Ctx, id string) {
-	if !c.Thorough() && !arch386Quick[id] {
-		c.Set("arch386_pass", "thorough tier only for this property")
-		return
-	}
+	// (until round 6 of the seeded changes the quick tier ran this pass for some properties only; word-size assumptions
+	// turned out to be the most common environment-dependent change, so every property runs it in both tiers now)
 	archPass(c, id, id, "vcheck-386", "386", "in a build for GOARCH=386 (32-bit int and uint): ")
 }
 
